@@ -7,6 +7,38 @@
 
 #define G2C_NOT(x) _Generic((x), _Bool: !(x), default: ~(x))
 
+/* *, / and % of 64-bit integers and doubles.  Default: the C operator.  With G2C_ABSTRACT_MULDIV the
+ * machine operation is an uninterpreted function -- the same symbol in rendered code and in the spec
+ * functions of contracts/arith.h -- so "the code applies the operation to exactly these operand
+ * values" is decided by congruence instead of by comparing two multiplier circuits (which no SAT
+ * back end here finishes). */
+#ifdef G2C_ABSTRACT_MULDIV
+unsigned long __CPROVER_uninterpreted_umul64(unsigned long, unsigned long);
+long __CPROVER_uninterpreted_smul64(long, long);
+double __CPROVER_uninterpreted_dmul(double, double);
+unsigned long __CPROVER_uninterpreted_udiv64(unsigned long, unsigned long);
+long __CPROVER_uninterpreted_sdiv64(long, long);
+double __CPROVER_uninterpreted_ddiv(double, double);
+unsigned long __CPROVER_uninterpreted_umod64(unsigned long, unsigned long);
+long __CPROVER_uninterpreted_smod64(long, long);
+#define G2C_MUL(x, y) _Generic((x), unsigned long: __CPROVER_uninterpreted_umul64((x), (y)), long: __CPROVER_uninterpreted_smul64((x), (y)), \
+                               double: __CPROVER_uninterpreted_dmul((x), (y)), default: ((x) * (y)))
+#define G2C_DIV(x, y) _Generic((x), unsigned long: __CPROVER_uninterpreted_udiv64((x), (y)), long: __CPROVER_uninterpreted_sdiv64((x), (y)), \
+                               double: __CPROVER_uninterpreted_ddiv((x), (y)), default: ((x) / (y)))
+#define G2C_MOD(x, y) _Generic((x), unsigned long: __CPROVER_uninterpreted_umod64((x), (y)), long: __CPROVER_uninterpreted_smod64((x), (y)), \
+                               default: ((x) % (y)))
+double __CPROVER_uninterpreted_dadd(double, double);
+double __CPROVER_uninterpreted_dsub(double, double);
+#define G2C_ADD(x, y) _Generic((x), double: __CPROVER_uninterpreted_dadd((x), (y)), default: ((x) + (y)))
+#define G2C_SUB(x, y) _Generic((x), double: __CPROVER_uninterpreted_dsub((x), (y)), default: ((x) - (y)))
+#else
+#define G2C_ADD(x, y) ((x) + (y))
+#define G2C_SUB(x, y) ((x) - (y))
+#define G2C_MUL(x, y) ((x) * (y))
+#define G2C_DIV(x, y) ((x) / (y))
+#define G2C_MOD(x, y) ((x) % (y))
+#endif
+
 /* ---- pending exception (ghost state) ---- */
 int   __exc;        /* 1 while an exception is propagating */
 void *__exc_obj;    /* the exception object */
